@@ -237,11 +237,30 @@ def _identity(run, P):
             conds = " and ".join(norm(i) for i in gen.ifs)
             ok = f"isinstance({v}, Variable)" in conds \
                 and f"{v}.name in self.lhs_mapping_candidates" in conds \
-                and norm(gen.iter) == f"{e}.children" and dotted(c.elt) == v
+                and norm(gen.iter) == f"{e}.children" and dotted(c.elt) in (v, f"{v}.name")
     run.ob("C17.identity", f, comp[0] if comp else f.node, ok,
            construct="identity candidates: children that are Variables in lhs_mapping_candidates",
            why="binding a non-free variable (or a non-variable) to the identity "
                "element reports a match that is not one")
+    # the target is taken apart into terms only if it is a node of the template's own class
+    from .util import path_conditions
+    for x in ast.walk(f.node):
+        takes = (isinstance(x, ast.Attribute) and x.attr == "children" and dotted(x.value) == o) or (
+            isinstance(x, ast.Call) and dotted(x.func) == "getattr" and len(x.args) >= 2
+            and dotted(x.args[0]) == o and isinstance(x.args[1], ast.Constant) and x.args[1].value == "children")
+        if not takes:
+            continue
+        st_ = next((s_ for s_ in ast.walk(f.node) if isinstance(s_, ast.stmt)
+                    and not isinstance(s_, (ast.If, ast.For, ast.While, ast.FunctionDef, ast.Try))
+                    and any(y is x for y in ast.walk(s_))), None)
+        guard = f"isinstance({o}, type({e}))"
+        same = st_ is not None and any(t == guard and pol for t, pol in path_conditions(f.node, st_))
+        same = same or any(isinstance(ie, ast.IfExp) and norm(ie.test) == guard
+                           and any(y is x for y in ast.walk(ie.body)) for ie in ast.walk(f.node))
+        run.ob("C17.identity", f, x, same,
+               construct=f"the terms of the target are read ({norm(x, 40)}) only under {guard}",
+               why="the operands of a product are not the terms of a sum: padded with identity "
+                   "elements under the template's operator, x*y 'matches' a + b + c")
     loops = [n for n in ast.walk(f.node) if isinstance(n, ast.For)]
     ok = False
     site = f.node
